@@ -747,6 +747,32 @@ func oracleC12(t *Trace, v *vset) {
 			}
 		}
 	}
+	// r6: a rejected Start has no side effects on later calls: a call issued after a
+	// Start of the plan was rejected returns although the plan is not executing
+	if t.Res.Hang {
+		for _, a := range t.APIs {
+			if a.RetSeq >= 0 || a.Plan < 0 || a.Plan >= len(t.Layouts) || (a.Op != "wait" && a.Op != "start" && a.Op != "plan") {
+				continue
+			}
+			var rej *APIRec
+			for _, s := range t.APIs {
+				if s.Op == "start" && s.Plan == a.Plan && s.RetSeq >= 0 && s.RetSeq < a.CallSeq && s.Err != "" {
+					rej = s
+				}
+			}
+			if rej == nil {
+				continue
+			}
+			for _, e := range t.Direct["hang"] {
+				if e.Plan == nil || PlanOfPath(e.Obj) != a.Plan {
+					continue
+				}
+				if st := status(e.Plan, planPath(a.Plan)); st != StRunning {
+					v.addf("C12", "C12.r6", "a call after a rejected Start never returns although the plan is not executing ("+a.Op+", plan stored "+stName(st)+")", []int{rej.RetSeq, a.CallSeq}, "%s(%s) by client %d, issued after Start was rejected with %q, had not returned when the watchdog expired", a.Op, planPath(a.Plan), a.Client, trunc(rej.Err, 120))
+				}
+			}
+		}
+	}
 	// unknown ids: must return errors, never a plan
 	for _, a := range t.APIs {
 		switch a.Op {
